@@ -408,11 +408,11 @@ func main() {
 		if !modelled {
 			continue
 		}
-		wsTerm := "None"
+		wsTerm := "(@None (list wsevent))"
 		if haveWS && !ws.TimedOut {
 			wsTerm = "(Some " + coqWS(ws) + ")"
 		}
-		scTerm := "None"
+		scTerm := "(@None script)"
 		if haveScript && !script.Hung {
 			scTerm = "(Some " + coqScript(script, ref.Failures) + ")"
 		}
